@@ -61,6 +61,7 @@ class Prop(object):
         for c in self._ciphers(tier)[:2]:
             for rc in ('pass', 'cv25519', 'rsa2048'):
                 u.append(('hashfault', {'cipher': c, 'recip': rc, 'body': 'b17'}))
+        u.append(('vectors', {}))
         for c in self._ciphers(tier)[:2]:
             u.append(('wrongkey', {'cipher': c}))
         for c in self._ciphers(tier)[:2]:
@@ -282,6 +283,22 @@ class Prop(object):
         r.dim('cipher', case['cipher'])
         r.dim('recipient', rc)
         r.samples.append({'digest_requests_per_decryption': sorted(ncalls), 'variants': len(variants)})
+        return r
+
+    def c_vectors(self, case):
+        """Stored ciphertexts (fixtures/c04_vectors.json): faulted messages whose effect depends on the random octets of the ciphertext, kept octet for
+        octet from the run that first showed them, so that they are judged on every run."""
+        import json
+        import os
+        r = Res()
+        path = os.path.join(os.path.dirname(os.path.dirname(os.path.abspath(__file__))), 'fixtures', 'c04_vectors.json')
+        with open(path) as f:
+            vectors = json.load(f)
+        for i, v in enumerate(vectors):
+            want = [bytes.fromhex(w) for w in v['want']]
+            self._judge(r, bytes.fromhex(v['blob']), v['recip'], want[0], {'where': 'stored-vector', 'vector': i}, dict(case), 'stored ciphertext #%d (%s)' % (i, v['label']),
+                        must_raise=v.get('must_raise', False), alts=tuple(want[1:]))
+        r.samples.append({'stored_vectors': len(vectors)})
         return r
 
     def c_esk(self, case):
